@@ -27,7 +27,7 @@ from sexp import Sym, dumps, loads
 
 PROP = 'C04'
 RULE = ('type-directed random OAL programs (quick: 2500 programs, <= 25 generated statements, nesting <= 3; thorough: 40000, '
-        '<= 60, nesting <= 5) over a fixed 4-class schema (1:1, 1:M, reflexive with phrases, association class) on random '
+        '<= 60, nesting <= 5) over a fixed 5-class schema (1:1, 1:M, reflexive with phrases, association class, reflexive association class with phrases) on random '
         'initial populations (0-6 instances per class, random links, loaded as SQL text) with random keyword arguments; every '
         '8th program belongs to the arithmetic family (half of its integer literals beyond 2**53, up to 2**70, both signs; '
         'attribute values and parameters likewise; `%` with dividends and divisors of either sign; 4 % of its divisors are zero, '
